@@ -61,6 +61,27 @@ theorem strip_ws (w : Str) (hw : ws w = true) : strip w = [] := by
   unfold strip rstrip
   rw [lstrip_ws_nil w hw]; rfl
 
+theorem mem_lstrip (l : Str) (c : Char) (hc : c ∈ l) (hs : isSpace c = false) : c ∈ lstrip l := by
+  induction l with
+  | nil => cases hc
+  | cons a as ih =>
+    unfold lstrip
+    by_cases ha : isSpace a = true
+    · simp only [ha, if_true]
+      rcases List.mem_cons.mp hc with rfl | h
+      · rw [hs] at ha; cases ha
+      · exact ih h
+    · simp only [ha]; exact hc
+
+/-- `x.strip()` is non-empty as soon as `x` has a non-whitespace character -/
+theorem strip_ne_nil (x : Str) (c : Char) (hc : c ∈ x) (hs : isSpace c = false) : strip x ≠ [] := by
+  unfold strip rstrip
+  have h1 : c ∈ lstrip x := mem_lstrip x c hc hs
+  have h2 : c ∈ lstrip (lstrip x).reverse := mem_lstrip _ c (by simpa using h1) hs
+  intro e
+  have : lstrip (lstrip x).reverse = [] := by simpa using e
+  rw [this] at h2; cases h2
+
 /-! ### `_groomstring` -/
 
 theorem groom_ws (w : Str) (hw : ws w = true) : groom (optStr w) = none := by
@@ -79,6 +100,34 @@ theorem groom_pad (w1 d w2 : Str) (h1 : ws w1 = true) (h2 : ws w2 = true) (hne :
   | cons c cs =>
     rw [hx] at hs
     simp only [optStr, groom, hs]
+
+/-- `_groomstring` keeps something exactly when the string is not all whitespace -/
+theorem truthy_groom (o : Option Str) : truthy (groom o) = !blank o := by
+  cases o with
+  | none => rfl
+  | some x =>
+    by_cases hb : x.all isSpace = true
+    · have : strip x = [] := strip_ws x hb
+      simp [groom, this, truthy, blank, hb]
+    · have hb' : x.all isSpace = false := by simpa using hb
+      obtain ⟨c, hc, hs⟩ : ∃ c, c ∈ x ∧ isSpace c = false := by
+        simp only [List.all_eq_false] at hb'
+        obtain ⟨c, hc, h⟩ := hb'
+        exact ⟨c, hc, by simpa using h⟩
+      have hne := strip_ne_nil x c hc hs
+      simp only [groom, blank, hb']
+      cases h : strip x with
+      | nil => exact absurd h hne
+      | cons a as => rfl
+
+theorem groom_nonblank (x : Str) (c : Char) (hc : c ∈ x) (hs : isSpace c = false) : truthy (groom (optStr x)) = true := by
+  cases x with
+  | nil => cases hc
+  | cons a as =>
+    have : optStr (a :: as) = some (a :: as) := rfl
+    rw [this, truthy_groom]
+    simp only [blank, Bool.not_eq_true', List.all_eq_false]
+    exact ⟨c, hc, by simp [hs]⟩
 
 /-! ### the builder state -/
 
@@ -102,12 +151,13 @@ theorem start_ok (tag : Str) (st : St) (h : st.CanStart) : st.start tag = .ok (s
     | inr h => simp only at h; subst h; rfl
   | cons f fs => rfl
 
+/-- the end tag that matches the innermost open element closes it -/
 theorem end_push (tag : Str) (tx : Option Str) (cs : List Tree) (st : St) :
-    St.end_ { st with stack := ⟨tag, tx, cs⟩ :: st.stack } = .ok (st.emit (.node tag tx none cs)) := by
+    St.end_ tag { st with stack := ⟨tag, tx, cs⟩ :: st.stack } = .ok (st.emit (.node tag tx none cs)) := by
   obtain ⟨stack, root⟩ := st
   cases stack with
-  | nil => rfl
-  | cons f fs => rfl
+  | nil => simp [St.end_, St.emit, Frame.toTree]
+  | cons f fs => simp [St.end_, St.emit, Frame.toTree]
 
 /-- the tag is a name: not empty and not an end tag -/
 theorem tagOk_cons {t : Str} (h : tagOk t = true) : ∃ c cs, t = c :: cs ∧ c ≠ '/' ∧ ∀ x ∈ c :: cs, isNameChar x = true := by
@@ -182,9 +232,9 @@ theorem step_empty (t : Str) (text tail : Option Str) (len : Nat) (st : St) (ht 
   have := end_push (c :: cs) none [] st
   simpa [St.push, Tree.agg] using this
 
-/-- an end tag pops the innermost open element, whatever its name -/
+/-- an end tag is handed to `end` with its name -/
 theorem step_end (name : Str) (text : Option Str) (len : Nat) (st : St) (htext : groom text = none) :
-    step ⟨'/' :: name, none, text, none, none, len⟩ st = st.end_ := by
+    step ⟨'/' :: name, none, text, none, none, len⟩ st = st.end_ name := by
   have h0 : groom none = none := rfl
   unfold step
   simp only [h0, truthy, htext, Bool.false_eq_true, if_false, Bool.and_self]
